@@ -44,8 +44,8 @@ void gen_config(Rng &rng, Program &p, const GenParams &gp) {
         if (rng.chance(0.5)) s.knobs["PNC_DEFAULT_CHUNKSIZE"] = (long)(rng.chance(0.5) ? 4 * rng.range(8, 64) : 1 << rng.range(6, 12));
         if (rng.chance(0.5)) s.knobs["NC_REQUEST_CHUNK"] = (long)rng.range(1, 4);
         if (rng.chance(0.5)) s.knobs["NC_ABUF_DEFAULT_TABLE_SIZE"] = (long)rng.range(2, 4);
-        if (rng.chance(0.4)) s.knobs["PNC_ARRAY_GROWBY"] = (long)rng.range(1, 3);
-        if (rng.chance(0.4)) s.knobs["PNC_VATTR_ARRAY_GROWBY"] = (long)rng.range(1, 3);
+        // PNC_ARRAY_GROWBY must stay a multiple of PNC_VATTR_ARRAY_GROWBY (64 and 4 in the shipped code): arrays sized with the former at open are grown with the latter afterwards
+        if (rng.chance(0.5)) { long vg = (long)rng.range(1, 3); s.knobs["PNC_VATTR_ARRAY_GROWBY"] = vg; s.knobs["PNC_ARRAY_GROWBY"] = vg * (long)rng.range(1, 2); }
         if (rng.chance(0.4)) s.knobs["PNC_HLIST_GROWBY"] = (long)rng.range(1, 3);
         if (rng.chance(0.4)) s.knobs["PNC_VARS_CHUNK"] = (long)rng.range(1, 3);
     }
